@@ -86,6 +86,13 @@ fn main() {
             }
             std::process::exit(report::replay(&args[2]));
         }
+        "replay-inner" => {
+            if args.len() < 3 {
+                usage();
+            }
+            limit_memory();
+            std::process::exit(report::replay_inner(&args[2]));
+        }
         "minimise" => {
             if args.len() < 3 {
                 usage();
